@@ -25,6 +25,8 @@ def spec(th, seed):
     units = unit('default.O2', 'plain', [], None) + unit('default.O0', 'plainO0', [], None) + unit('default.O3', 'plainO3', [], None)
     for m in MACROS:
         units.extend(unit(m, 'plain', ['-DGLM_FORCE_' + m], None))
+    # the language level glm detects from the compiler (no macro): a C++20 translation unit
+    units.extend(unit('std=c++20', 'plain', ['-std=c++20'], None))
     # pairs that touch the same code (quaternion member order x constructor order x default initialisation)
     for a, b in (('CTOR_INIT', 'QUAT_DATA_WXYZ'), ('QUAT_DATA_WXYZ', 'QUAT_DATA_XYZW')):
         units.extend(unit(a + '+' + b, 'plain', ['-DGLM_FORCE_' + a, '-DGLM_FORCE_' + b], None))
